@@ -9,7 +9,7 @@ import coqemit as E
 ID = "C16"
 PROPS = "Props/C16.v"
 IMPORTS = ("From Coq Require Import String PrimFloat.\nFrom PV Require Import Lib.Common Lib.C16_Spec Model.C16_Store Model.C16_Heap Model.C16_Codec "
-           "Gen.C16_Fields Gen.C16_Kernel Model.C16_Kernel Model.C16_Maps.")
+           "Gen.C16_Fields Gen.C16_Kernel Model.C16_Kernel Model.C16_Maps Model.C16_Multi.")
 SHARD = 40
 SERIAL = False
 LEVEL_TEXT = ("Coq theorems over executable models of (1) the HDF5 store with h5py_File_write_dict, the typed readers and the table-driven "
@@ -24,13 +24,18 @@ LEVEL_TEXT = ("Coq theorems over executable models of (1) the HDF5 store with h5
               "codecs (Morgan genetic maps lossless; the egmap file pair reproduces every extended map, marker names and function codes "
               "included, and both map constructors keep the interpolation kind / fill value they are given - the two defects that were "
               "repaired in the library are kept as refutations about the former definitions old_egmap_to / old_egmap_from / "
-              "old_egmap_ctor_kind; refutations for cM rounding, breeding-value location/scale, sorted variance-matrix labels, "
+              "old_egmap_ctor_kind; (4) several objects in ONE file: a write under group g (any writer version, class, object, flag, prior content, "
+              "successful or not) leaves every path outside g untouched - only an empty ancestor group of g can appear -, the object stored under "
+              "a group path that is not a prefix of g nor has g as a prefix reads back exactly as before (all classes, dictionary attributes "
+              "included), through whole interleaved histories, and every to_hdf5 opens a file given by name in mode 'a' (row per class "
+              "regenerated from the source), so by name or by handle is the same; refutations for cM rounding, breeding-value location/scale, sorted variance-matrix labels, "
               "absent labels, default arguments on the two sides of the genetic-map codecs); every attribute a copy (shallow or deep) duplicates is a cell "
               "allocated by that copy. Field lists, readers and copy modes (Gen/C16_Fields.v) and the kernel expressions on which the "
               "theorems turn (Gen/C16_Kernel.v: field name, the three delete conditions and the recursive call of h5py_File_write_dict, the "
               "decode condition of h5py_File_read_dict, the group-name normalisation of all 18 to_hdf5/from_hdf5 bodies, the unit conversions, "
               "default units, constructor spline arguments, egmap column names, the condition under which from_egmap reads an optional column and by-name/by-position column selections of the table readers, "
-              "the long-table layout of the variance-matrix codec) are extracted from the source by ast translators on every run; the "
+              "the long-table layout of the variance-matrix codec, the mode of `h5py.File(filename, <mode>)` and the exact set of statements that touch the "
+              "file object in each of the 12 to_hdf5 bodies) are extracted from the source by ast translators on every run; the "
               "round-trip theorems are restated about the code written with the generated definitions, proved equal to the hand model by "
               "conversion, so a changed expression leaves the obligations undischarged whatever the sampled cases exercise. The models are "
               "tied to the code by evaluating them inside Coq against real HDF5 files, CSV / egmap files, data frames, VCF text parsed by "
@@ -48,6 +53,10 @@ RULE = ("case kinds from one PRNG: h5 (class, group name incl. nested/non-ASCII/
         "overwrite flags, rich->poor sequences, optional fields all/none/mixed, grouped or arbitrary metadata, file name or open handle; the "
         "object written comes from the constructor, from copy.copy / copy.deepcopy, or is the object of the previous step updated in place "
         "through its setters; layouts with more than 127 / 255 taxa or variants; int64 positions beyond 2^53), rd (every typed reader and "
+        "mh5 (2-4 locations of ONE file - nested 'a' and 'a/b', sibling prefixes 'a/b' / 'a/bc' / 'a/bcd', 'a' / 'ab', the root, spelling variants - each "
+        "bound to a class, every persistable class in turn written by str / pathlib.Path name after another location exists and again through an open "
+        "handle, 3-7 interleaved writes with overwrite both ways; after EVERY write the whole file is listed and every location written so far is "
+        "read back by name / Path / handle and compared with the last object written there), rd (every typed reader and "
         "h5py_File_read_dict / has_group called directly on files written with h5py itself: all dtypes, values that wrap in int8, scalar and "
         "array strings, invalid UTF-8), wd "
         "(h5py_File_write_dict called directly with nested dictionaries, None items, str/bytes members, a dictionary replacing data and the reverse), copy (14 classes x "
@@ -60,6 +69,7 @@ RULE = ("case kinds from one PRNG: h5 (class, group name incl. nested/non-ASCII/
         "hand-written egmap files with the documented header); non-trivial = an object with both present "
         "and absent optional fields or a sequence of >= 2 writes / any copy, vcf, df, wd, rd case; distinct by SHA-256 of the case")
 TRUSTED = ["h5py/HDF5 semantics: membership test, delete of a group removes its subtree, create_dataset creates missing groups and refuses existing names",
+           "h5py.File modes as modelled by open_named: 'a' keeps the content, 'w' truncates, 'r+' needs an existing file, 'x'/'w-' refuse one; an open handle is used as it is",
            "pandas: DataFrame construction, get_loc, to_numpy; read_csv/to_csv treated as a black box whose parsed frame is observed",
            "cyvcf2 0.34: VCF text -> (CHROM, POS, ID, genotypes)", "numpy: ndarray.__copy__/__deepcopy__ copy the buffer; lexsort/argsort(mergesort) are stable",
            "group metadata attribute names (taxa_grp_*, vrnt_chrgrp_*) are listed in the harness, not derived from the source",
@@ -546,7 +556,7 @@ def emit_case(case, out):
 import re as _re
 _IO_RE = _re.compile(r"^(to_|from_|copy$|deepcopy$|__copy__$|__deepcopy__$)")
 _COPY4 = ["__copy__", "__deepcopy__", "copy", "deepcopy"]
-_PD = ["to_pandas", "from_pandas", "to_csv", "from_csv"]; _PDD = ["to_pandas_dict", "from_pandas_dict", "to_csv_dict", "from_csv_dict"]; _H5 = ["to_hdf5", "from_hdf5"]
+_PD = ["to_pandas", "from_pandas", "to_csv", "from_csv"]; _PDD = ["to_pandas_dict", "from_pandas_dict", "to_csv_dict", "from_csv_dict"]; _H5 = ["to_hdf5", "from_hdf5"]          # case kinds h5 (one location) and mh5 (several objects of different classes in one file)
 COVERED = {        # python class -> {method: case kind that calls it}
     "DenseMatrix": {**{m: "copy" for m in _COPY4}, **{m: "h5" for m in _H5}},
     "DenseTaxaMatrix": {**{m: "copy" for m in _COPY4}, **{m: "h5" for m in _H5}},
@@ -781,6 +791,9 @@ def gen_cases(rng, tier):
         for i in range((30 if key != "STT" else 16) if tier == "quick" else 250): cases.append(gen_df(rng, key))
     for i in range(60 if tier == "quick" else 600): cases.append(gen_wd(rng))
     for i in range(40 if tier == "quick" else 400): cases.append(gen_rd(rng))
+    # several objects of different classes in ONE file: every persistable class takes part, by name and by handle
+    for i in range(10 if tier == "quick" else 60):
+        for key in H5_CLASSES: cases.append(gen_mh5(rng, key, i))
     return cases
 
 # ------------------------------------------------------------------------------------------------ predicate
@@ -834,7 +847,7 @@ WRITTEN = {}
 
 def pred(case, out):
     if "exc" in out: return ["harness/implementation raised %s: %s" % (out["exc"], out.get("msg"))]
-    bad = {"h5": pred_h5, "copy": pred_copy, "vcf": pred_vcf, "df": pred_df, "wd": pred_wd, "rd": pred_rd}[case["kind"]](case, out)
+    bad = {"h5": pred_h5, "copy": pred_copy, "vcf": pred_vcf, "df": pred_df, "wd": pred_wd, "rd": pred_rd, "mh5": pred_mh5}[case["kind"]](case, out)
     seen = []
     for b in bad:
         if b not in seen: seen.append(b)
@@ -888,6 +901,9 @@ def describe(case, out):
         d["writes"] = len(case["objs"]); d["group"] = "root" if case["group"] is None else ("non-ascii" if any(ord(c) > 127 for c in case["group"]) else "nested" if "/" in case["group"].strip("/") else "plain")
         d["all_overwrite"] = all(case["overwrite"])
         d["routes"] = ",".join(sorted(set(out.get("routes", ["new"])))) if isinstance(out, dict) else "?"
+    if case["kind"] == "mh5":
+        d["writes"] = len(case["steps"]); d["locations"] = len({_norm_group(t["group"]) for t in case["steps"]})
+        d["by"] = ",".join(sorted({t["how"] for t in case["steps"]})); d["all_overwrite"] = all(t["ow"] for t in case["steps"])
     if case["kind"] == "copy": d["how"] = case["how"]; d["src"] = case.get("src", "new")
     if case["kind"] == "df": d["via"] = case["via"]; d["defaults"] = bool(case.get("opts", {}).get("defaults")); d["bypos"] = bool(case.get("opts", {}).get("bypos"))
     return d
@@ -1632,6 +1648,137 @@ def pred_rd(case, out):
     if not (out["readable"] and not out["writable"] and out["writable_a"]): bad.append("h5py_File_is_readable/is_writable wrong for modes r / a")
     return bad
 
+
+# ------------------------------------------------------------------------------------------------ several objects in ONE file
+# A history of to_hdf5 calls of objects of DIFFERENT classes under different group paths of one file (nested: 'a' and 'a/b';
+# sibling prefixes: 'a/b' and 'a/bc'; the root), interleaved, the file handed over by name (str / pathlib.Path) or as an open
+# h5py.File, overwrite both ways.  After EVERY write the whole file is listed and every location written so far is read back.
+MGROUPS = ["a", "a/b", "a/bc", "a/b/c", "x", "/abs/x", "données/ü", "x/y/z", "a/bcd", "ab", None]
+MG_SPELL = {"a/b": ["a/b", "a/b/", "a//b", "/a/b"], "a/bc": ["a/bc", "a/bc/"], "a": ["a", "a/", "/a"], "x": ["x", "x/"]}
+MPAIRS = [("a/b", "a/bc"), ("a", "a/b"), ("a/b", "a/b/c"), ("a/bc", "a/b"), ("a/b", "a"), ("x", "x/y/z"), ("a", "ab"), ("a/bc", "a/bcd"), (None, "a/b"),
+          ("ab", "a"), ("a/bcd", "a/bc"), ("a/b/c", "a/b"), ("x/y/z", "x")]
+HOWS_W = ["str", "path", "handle"]
+
+def _no_none_members(o):
+    h = o.get("hyperparams")
+    if h is not None: h["v"] = {k: v for k, v in h["v"].items() if v is not None}      # (a None member is the known finding of the h5 cases)
+    return o
+
+def gen_mh5(rng, key=None, i=0):
+    key = key or rng.choice(H5_CLASSES)
+    nloc = rng.randint(2, 4)
+    first = list(MPAIRS[(i + H5_CLASSES.index(key)) % len(MPAIRS)]) if rng.random() < 0.85 else []
+    pool = [g for g in MGROUPS if g not in first]; rng.shuffle(pool)
+    groups = (first + pool)[:nloc]
+    # location 1 holds the class under test; it is written BY NAME after location 0 has been written
+    classes = [rng.choice(H5_CLASSES) for _ in groups]; classes[1] = key
+    ntr = [rng.randint(1, 3) for _ in groups]
+    def step(l, ow=None, how=None):
+        o = _no_none_members(gen_obj(rng, classes[l]))
+        if classes[l] == "GE":
+            o["_ntrait"] = ntr[l]
+            for f in ("var_env", "var_rep", "var_err"):
+                if o.get(f) is not None: o[f] = g_f64(rng, [ntr[l]], nonneg=True)
+        g = groups[l]
+        return {"loc": l, "cls": classes[l], "group": rng.choice(MG_SPELL.get(g, [g])), "obj": o,
+                "ow": (rng.random() < 0.8) if ow is None else ow, "how": how or rng.choice(HOWS_W), "rd": rng.choice(HOWS_W)}
+    steps = [step(0), step(1, ow=(i % 4 != 3), how=["str", "path"][i % 2])]
+    if nloc > 2: steps.append(step(2))
+    steps.append(step(1, ow=True, how=["handle", "handle", "path", "str"][(i // 2) % 4]))      # the same class again, now mostly through an open handle
+    for _ in range(rng.randint(0, 2)): steps.append(step(rng.randrange(nloc)))
+    return {"kind": "mh5", "cls": key, "steps": steps}
+
+def _open_arg(fn, how):
+    from pathlib import Path
+    return Path(fn) if how == "path" else fn
+
+def run_mh5(case):
+    import h5py, gc
+    fn = _tmp(case, ".h5")
+    if os.path.exists(fn): os.remove(fn)
+    out = {"orig": [], "writes": [], "dumps": [], "reads": []}
+    seen = {}                                   # location -> (class key, group spelling of the latest call, ntrait)
+    try:
+        for st in case["steps"]:
+            key = st["cls"]; o = build(key, st["obj"])
+            out["orig"].append(observe(key, o))
+            try:
+                if st["how"] == "handle":
+                    with h5py.File(fn, "a") as h5: o.to_hdf5(h5, st["group"], st["ow"])
+                else:
+                    o.to_hdf5(_open_arg(fn, st["how"]), st["group"], st["ow"])
+                out["writes"].append(None)
+            except Exception as e:
+                out["writes"].append(_exc(e)); gc.collect()
+            seen[_norm_group(st["group"])] = (key, st["group"], st["obj"].get("_ntrait", 0))
+            out["dumps"].append(h5dump(fn) if os.path.exists(fn) else None)
+            rd = {}
+            for loc, (k, g, nt) in seen.items():
+                try:
+                    kw = {"gpmod": gpmod_for(nt)} if k == "GE" else {}
+                    if st["rd"] == "handle":
+                        with h5py.File(fn, "r") as h5: r = klass(k).from_hdf5(h5, g, **kw)
+                    else:
+                        r = klass(k).from_hdf5(_open_arg(fn, st["rd"]), g, **kw)
+                    rd[loc] = {"cls": k, "group": g, "nt": nt, "obj": observe(k, r)}
+                except Exception as e:
+                    rd[loc] = {"cls": k, "group": g, "nt": nt, "obj": _exc(e)}; gc.collect()
+            out["reads"].append(rd)
+    finally:
+        if os.path.exists(fn): os.remove(fn)
+    return out
+_RUN["mh5"] = run_mh5
+
+def emit_mh5(case, out):
+    def e_g(g): return "None" if g is None else "(Some %s)" % zstr(g)
+    steps = E.lst(list(zip(case["steps"], out["orig"])),
+                  lambda p: "(spec_%s, %s, %s, %s, %s, %s)" % (p[0]["cls"], Z(p[0]["obj"].get("_ntrait", 0)), e_g(p[0]["group"]), e_obj(p[1], attrs(p[0]["cls"])),
+                                                             E.b(p[0]["ow"]), E.b(p[0]["how"] != "handle")))
+    def so(i):
+        d = out["dumps"][i]
+        rds = E.lst(sorted(out["reads"][i].items()),
+                    lambda kv: "(spec_%s, %s, %s, %s)" % (kv[1]["cls"], Z(kv[1]["nt"]), e_g(kv[1]["group"]),
+                                                         "None" if "exc" in kv[1]["obj"] else "(Some %s)" % e_obj(kv[1]["obj"], attrs(kv[1]["cls"]))))
+        return "(%s, %s, %s)" % (E.b(out["writes"][i] is not None), "None" if d is None else "(Some %s)" % e_dump(d), rds)
+    return "agree_mh5 false [] %s %s" % (steps, E.lst(range(len(case["steps"])), so))
+_EMIT["mh5"] = emit_mh5
+
+def pred_mh5(case, out):
+    """after EVERY write, every location holds the last object successfully written there (read back with its own class) and the
+    file holds exactly the datasets of those objects: a write under one group leaves everything outside that group alone"""
+    bad = []
+    last = {}                                   # location -> index of the last successful write
+    for i, st in enumerate(case["steps"]):
+        loc = _norm_group(st["group"]); w = out["writes"][i]
+        what = "step %d (%s to %r, file by %s, overwrite=%s)" % (i, st["cls"], st["group"], st["how"], st["ow"])
+        if w is None: last[loc] = i
+        elif st["ow"] or loc not in last:
+            bad.append("%s: to_hdf5 raised %s: %s" % (what, w["exc"], w["msg"][:120]))
+        want = set()
+        for l, j in sorted(last.items()):
+            sj = case["steps"][j]
+            r = out["reads"][i].get(l, {}).get("obj")
+            if r is None: bad.append("%s: location %r was not read" % (what, l)); continue
+            who = "the %s written to %r at step %d" % (sj["cls"], l, j)
+            if "exc" in r: bad.append("%s: %s can no longer be read: %s: %s" % (what, who, r["exc"], r["msg"][:100]))
+            else:
+                d = oeq(out["orig"][j], r)
+                if d: bad.append("%s: %s reads back different in %s" % (what, who, ",".join(d)))
+            pre = l + "/" if l else ""
+            want |= {pre + k for k in _flat_keys(out["orig"][j]) if k.split("/")[0] in WRITTEN_KEYS[sj["cls"]]}
+        dump = out["dumps"][i]
+        if dump is None:
+            if want: bad.append("%s: the file does not exist" % what)
+            continue
+        have = {k for k, v in dump.items() if v != "G"}
+        # a refused (overwrite=False) write may have created the fields the location lacked before it met an existing one
+        loose = {_norm_group(s["group"]) for s, w2 in zip(case["steps"][:i + 1], out["writes"][:i + 1]) if w2 is not None}
+        extra = {k for k in have - want if not any((k + "/").startswith(l + "/") or l == "" for l in loose)}
+        if extra: bad.append("%s: datasets in the file that belong to no object written: %s" % (what, ",".join(sorted(extra))[:160]))
+        miss = want - have
+        if miss: bad.append("%s: datasets of objects written earlier are gone from the file: %s" % (what, ",".join(sorted(miss))[:160]))
+    return bad
+
 # ------------------------------------------------------------------------------------------------ shrinking
 _KEEP = {"mat", "beta", "u_a", "u_d", "nenv", "nrep", "location", "scale", "ploidy", "vrnt_chrgrp", "vrnt_phypos", "vrnt_genpos", "vrnt_stop"}
 def shrink(case, fails):
@@ -1653,6 +1800,13 @@ def shrink(case, fails):
             t = _copy.deepcopy(cur); del t["records"][j]
             if attempt(t): cur = t
             else: j += 1
+        return cur
+    elif cur["kind"] == "mh5":
+        j = len(cur["steps"]) - 1
+        while j >= 0 and len(cur["steps"]) > 1:
+            t = _copy.deepcopy(cur); del t["steps"][j]
+            if attempt(t): cur = t
+            j -= 1
         return cur
     elif cur["kind"] == "wd":
         while len(cur["dicts"]) > 1:
